@@ -2,6 +2,7 @@ import PolyVerif.Lemmas.GenbankOrigin
 import PolyVerif.Lemmas.GenbankLocus
 import PolyVerif.Lemmas.GenbankSub
 import PolyVerif.Lemmas.GenbankParse
+import PolyVerif.Lemmas.GenbankMulti
 /-
 Property C01 — GenBank parsing returns exactly what a well-formed record states.
 
@@ -110,5 +111,74 @@ empty lines) returns what the record states. -/
 theorem parseLoop_layout_lines (r : GbRec) (ℓ : RecLayout) (tail : List Str) (h : WF r) (ht : ∀ l ∈ tail, l = []) :
     parseLoop (layout r ℓ ++ tail) {} = .ok (toSequence r) :=
   parseLoop_layout r ℓ tail h ht
+
+/-- **Parsing a well-formed GenBank record returns exactly what the record states.**  For every abstract
+record in the domain `WF` (the property's quantifier) and every choice of the independent writer — the six
+LOCUS gaps, where each keyword block, reference block and qualifier value is wrapped, where locations and
+`/translation` values are cut, block length and blocks per line of the sequence, `ORIGIN` with or without
+trailing blanks, final newline or not — `Parse` applied to the text returns the record: sequence, LOCUS
+fields, DEFINITION … ORGANISM, references, extra keyword blocks, and every feature with key, location text
+and qualifier values. -/
+theorem parse_layout (r : GbRec) (ℓ : RecLayout) (finalNewline : Bool) (h : WF r) :
+    parse (layoutText r ℓ finalNewline) = .ok (toSequence r) :=
+  parse_layoutText r ℓ finalNewline h
+
+/-- a small record exercising every section: two-digit length, a locus called `linear` that is circular,
+wrapped definition, a reference whose journal continues with the word SOURCE, a COMMENT continuing with the
+word TITLE, a multi-line location without qualifier followed by a feature whose value continues with `/b` -/
+def exampleRec : GbRec :=
+  { locus := ⟨c!"linear", .dna, .circular, 6, c!"01-JAN-2020"⟩
+    definition := c!"a small test record", accession := c!"X1", version := c!"X1.1", keywords := c!"."
+    source := c!"synthetic construct", organism := c!"synthetic construct"
+    refs := [{ range := c!"(bases 1 to 12)", authors := c!"A B", journal := c!"open SOURCE code", pubmed := c!"123" }]
+    extras := [(c!"COMMENT", c!"see TITLE page")]
+    features := [{ key := c!"gene", loc := c!"join(1..2,3..4)" },
+                 { key := c!"CDS", loc := c!"1..12", quals := [(c!"note", c!"a /b=c"), (c!"translation", c!"MKV")] }]
+    seq := c!"acgtacgtacgt" }
+
+def exampleLay : RecLayout :=
+  { definition := [7], refs := [{ journal := [4] }], extras := [[3]], feats := [{ loc := [9] }, { quals := [[1], [2]] }] }
+
+example : WF exampleRec ∧ noSlashEnd exampleRec exampleLay = true := by
+  constructor
+  · show wf exampleRec = true
+    decide
+  · decide
+
+example : parse (layoutText exampleRec exampleLay false) = .ok (toSequence exampleRec) :=
+  parse_layout _ _ _ (by show wf exampleRec = true; decide)
+
+/-! ## files of several records -/
+
+/-- **A file holding k records, each terminated by `//`, yields k results in file order** (with or without
+the final newline): every record in the domain and, as the property demands, no line other than a
+terminator ending in `//` (`RecOK`). -/
+theorem parseMulti_layout (rs : List GbRec) (ℓ : FileLayout) (hh : ℓ.header = none) (hne : rs ≠ [])
+    (hok : ∀ p ∈ zipLay rs ℓ.recs, RecOK p) :
+    parseMulti (layoutFile rs ℓ) = .ok (rs.map toSequence) :=
+  parseMulti_layoutFile rs ℓ hh hne hok
+
+/-- … **each equal to the result of parsing that record alone.** -/
+theorem parseMulti_eq_parse_each (rs : List GbRec) (ℓ : FileLayout) (hh : ℓ.header = none) (hne : rs ≠ [])
+    (hok : ∀ p ∈ zipLay rs ℓ.recs, RecOK p) :
+    parseMulti (layoutFile rs ℓ) = mapOutcome (fun p => parse (layoutText p.1 p.2 true)) (zipLay rs ℓ.recs) := by
+  rw [parseMulti_layoutFile rs ℓ hh hne hok,
+    mapOutcome_ok (fun p : GbRec × RecLayout => parse (layoutText p.1 p.2 true)) (fun p => toSequence p.1) _
+      (fun p hp => parse_layoutText p.1 p.2 true (hok p hp).1)]
+  congr 1
+  have := zipLay_map_fst rs ℓ.recs
+  conv => lhs; rw [← this]
+  rw [List.map_map]; rfl
+
+/-- the same through `ParseFlat`, for a file that starts with a 10-line header (any ten lines) -/
+theorem parseFlat_layout (rs : List GbRec) (ℓ : FileLayout) (H : List Str) (hh : ℓ.header = some H)
+    (hH : H.length = 10) (hHnl : ∀ l ∈ H, '\n' ∉ l) (hne : rs ≠ []) (hok : ∀ p ∈ zipLay rs ℓ.recs, RecOK p) :
+    parseFlat (layoutFile rs ℓ) = .ok (rs.map toSequence) :=
+  parseFlat_layoutFile rs ℓ H hh hH hHnl hne hok
+
+example : ∀ p ∈ zipLay [exampleRec, exampleRec] [exampleLay, {}], RecOK p := by
+  intro p hp
+  simp only [zipLay, List.headD_cons, List.tail_cons, List.mem_cons, List.not_mem_nil, or_false] at hp
+  rcases hp with rfl | rfl <;> exact ⟨by decide, by decide⟩
 
 end PolyVerif.Props.C01
